@@ -61,6 +61,18 @@ CLAIMED = {
          "Exhaustive for small bounds (evidence marks which stage), generated beyond; concurrency sampled.",
          "union's returned parent under concurrency is only required to be a smaller member (a concurrent link may displace it); no schedule-perturbation hooks inside the repo code.",
          "DESIGN.md 4/C17"),
+ "C11": ("differential (translation-validation style) property testing: every generated program accepted by program_supports_proofs runs on the plain engine, under the term encoding and with proofs, compared per command (Ok/Err + stable snapshot: check outcomes, extraction costs, sizes); the desugared encoded program is printed and re-run on a plain engine; corpus files too",
+         "Generated source programs through three modes plus print-reparse-run; divergences are triaged to root-cause signatures.",
+         "Six triaged divergences of the encoder are recorded as known findings (each with a minimal regression program) and their triggers are excluded from the main stage by construction; a second stage keeps all features on and tolerates exactly those signatures.",
+         "DESIGN.md 4/C11"),
+ "C12": ("property-based testing with an independent proof walker and mutation of proofs/programs: prove <=> plain check on generated facts (true/false, ground/variable, conjunctions), never a panic; independent shape check of the returned proof through the public API; through the verif-hooks entry points the in-tree checker must reject the proof against the checking program minus a used rule/union and reject structurally mutated proofs (Trans, Congr, Rule, Fiat mutations incl. forged congruences)",
+         "Generated programs x facts x single-point alterations; both directions of the checker (accepts what prove returns, rejects unjustified steps).",
+         "Needs the additive cargo feature verif-hooks (check_proof is pub(crate)); only locally evident mutations are used; no subsumption in this fragment (prove does not see subsumed rows).",
+         "DESIGN.md 4/C12"),
+ "C18": ("model-based property testing of scheduler steps: generated closed/generative programs x scheduler policies (all, none-then-all, bit-string subsets, one-at-a-time, back-off) with writes between steps; offers compared with the reference nested-loop matcher, chosen matches applied on a reference engine, choose-all vs step_rules, fair drain vs built-in saturation, database invariants after every step, behaviour after Err steps",
+         "Generated programs x policies x interleaved writes with per-step oracles.",
+         "Only what the scheduler API promises is asserted (no order, no absence of duplicate offers).",
+         "DESIGN.md 4/C18"),
 }
 
 PENDING_REASON = "check not built yet in this round (work in progress; see DESIGN.md section 8 for the build order)"
